@@ -14,7 +14,11 @@ try:
     subprocess.run("git init -q . && git add -A && git -c user.email=a@b -c user.name=x commit -qm base", shell=True, cwd=t)
     p = subprocess.run(["git", "apply", "--whitespace=nowarn", os.path.abspath(patch)], cwd=t, capture_output=True, text=True)
     if p.returncode:
-        print("patch does not apply:", p.stderr); sys.exit(3)
+        # the tree has moved since the seed was written (fix commits): retry with fuzz
+        p = subprocess.run("patch -p1 -F3 --no-backup-if-mismatch < %s" % os.path.abspath(patch), shell=True, cwd=t, capture_output=True, text=True)
+        if p.returncode:
+            print("patch does not apply:", p.stdout[-300:], p.stderr[-300:]); sys.exit(3)
+        print("(applied with fuzz)")
     for pid in pids:
         r = subprocess.run(["./check", pid], cwd=VERIF, env=dict(os.environ, MILA_REPO=t, MILA_OUT=out), capture_output=True, text=True)
         print("== %s exit %d" % (pid, r.returncode))
